@@ -222,9 +222,10 @@ func (vfs *MemFS) createDir(parent *dirNode, name string, perm fs.FileMode) *dir
 	child := &dirNode{
 		baseNode: baseNode{
 			mtime: time.Now().UnixNano(),
-			mode:  vfs.dirMode | (perm & avfs.FileModeMask &^ vfs.UMask()),
-			uid:   vfs.User().Uid(),
-			gid:   vfs.User().Gid(),
+			// as mkdir(2) does, the set-user-ID and set-group-ID bits of perm are ignored, the sticky bit is kept.
+			mode: vfs.dirMode | (perm & (fs.ModePerm | fs.ModeSticky) &^ vfs.UMask()),
+			uid:  vfs.User().Uid(),
+			gid:  vfs.User().Gid(),
 		},
 		children: nil,
 		id:       atomic.AddUint64(vfs.lastId, 1),
